@@ -60,6 +60,31 @@ def string_property_round_trip(k: int, s: str, again: bool) -> bool:
     return len(s) <= 255 and getattr(part, name) == s and others and _children_ok(part._element) and len(part._element) == 1
 
 
+# the length limit counts characters, whatever they are: boundary lengths x characters of every encoded width and markup characters
+UNITS = ["a", "&", "<", "\u00e9", "\u4e2d", "\U0001F600", "\U00020000", "]]>"]
+COUNTS = [0, 1, 84, 85, 86, 127, 128, 254, 255, 256, 257]
+
+
+@cond(timeout=900, encodes=ENC,
+      bound="each of the 11 string properties x a string made of c copies of one unit, c from [0, 1, 84, 85, 86, 127, 128, 254, 255, 256, "
+            "257] and the unit from [a, &, <, U+00E9, U+4E2D, U+1F600, U+20000, ]]>] (choice variables: exhaustive over 968 cases; covers "
+            "characters of 1-4 UTF-8 bytes, 1-2 UTF-16 units and characters that are escaped when serialised): accepted iff "
+            "len(s) <= 255, then read back unchanged")
+def string_property_length_counts_characters(k: int, u: int, c: int) -> bool:
+    """
+    pre: 0 <= k < len(TEXT_PROPS) and 0 <= u < len(UNITS) and 0 <= c < len(COUNTS)
+    post: _
+    """
+    part = _part()
+    name = choose(TEXT_PROPS, k)
+    s = choose(UNITS, u) * choose(COUNTS, c)
+    try:
+        setattr(part, name, s)
+    except ValueError:
+        return len(s) > 255 and getattr(part, name) == ""
+    return len(s) <= 255 and getattr(part, name) == s
+
+
 @cond(expect="refute", timeout=120, twin_of="string_property_round_trip")
 def string_property_twin(s: str) -> bool:
     """
